@@ -318,23 +318,81 @@ impl KindFn for Cell<'_> {
                 }
             }
             if with_shx && self.n > 0 {
+                // random access, repeated on ONE reader: a typed access (matching or not) is followed by the same typed
+                // access again, by the generic access, and by the typed access once more — a failed typed read must not
+                // change what the next access to the same (or another) record returns
                 let mut r = open()?;
-                match r.read_nth_shape_as::<S>(self.n - 1) {
-                    Some(Ok(v)) => ensure!(
-                        s_ty == self.actual && v.view() == self.generic[self.n - 1],
-                        "wrong-type-yielded",
-                        "read_nth_shape_as::<{}> yields a value for a {} record",
-                        s_ty.name(),
-                        self.actual.name()
-                    ),
-                    Some(Err(e)) => ensure!(
-                        s_ty != self.actual && mismatch_of(&e) == Some((s_ty, self.actual)),
-                        "typed-error",
-                        "read_nth_shape_as::<{}>: {:?}",
-                        s_ty.name(),
-                        e
-                    ),
-                    None => fail!("count", "read_nth_shape_as({}) is None", self.n - 1),
+                let mut ks = vec![self.n - 1, 0, self.n / 2, self.n - 1];
+                ks.dedup();
+                for k in ks {
+                    for round in 0..3 {
+                        match r.read_nth_shape_as::<S>(k) {
+                            Some(Ok(v)) => ensure!(
+                                s_ty == self.actual && v.view() == self.generic[k],
+                                "wrong-type-yielded",
+                                "read_nth_shape_as::<{}>({}) (call {} on the same reader) yields a value that is not record {} of the {} file",
+                                s_ty.name(),
+                                k,
+                                round,
+                                k,
+                                self.actual.name()
+                            ),
+                            Some(Err(e)) => ensure!(
+                                s_ty != self.actual && mismatch_of(&e) == Some((s_ty, self.actual)),
+                                "typed-error",
+                                "read_nth_shape_as::<{}>({}) (call {} on the same reader) on a {} file: {:?}",
+                                s_ty.name(),
+                                k,
+                                round,
+                                self.actual.name(),
+                                e
+                            ),
+                            None => fail!("count", "read_nth_shape_as({}) is None", k),
+                        }
+                        if round == 1 {
+                            match r.read_nth_shape(k) {
+                                Some(Ok(g)) => ensure!(
+                                    variant_ty(&g) == self.actual && view_shape(&g) == self.generic[k],
+                                    "typed-vs-generic",
+                                    "read_nth_shape({}) after read_nth_shape_as::<{}>({}) on the same reader is not record {} of the {} file (got a {:?})",
+                                    k,
+                                    s_ty.name(),
+                                    k,
+                                    k,
+                                    self.actual.name(),
+                                    variant_ty(&g)
+                                ),
+                                Some(Err(e)) => fail!("typed-vs-generic", "read_nth_shape({}) after read_nth_shape_as::<{}>({}) on the same reader fails: {:?}", k, s_ty.name(), k, e),
+                                None => fail!("count", "read_nth_shape({}) is None", k),
+                            }
+                        }
+                    }
+                    // seek(k) after the typed accesses, then the typed iterator: starts at record k
+                    if r.seek(k).is_ok() {
+                        match r.iter_shapes_as::<S>().next() {
+                            Some(Ok(v)) => ensure!(
+                                s_ty == self.actual && v.view() == self.generic[k],
+                                "wrong-type-yielded",
+                                "seek({}) after typed accesses, then iter_shapes_as::<{}>: first item is not record {} of the {} file",
+                                k,
+                                s_ty.name(),
+                                k,
+                                self.actual.name()
+                            ),
+                            Some(Err(e)) => ensure!(
+                                s_ty != self.actual && mismatch_of(&e) == Some((s_ty, self.actual)),
+                                "typed-error",
+                                "seek({}) after typed accesses, then iter_shapes_as::<{}> on a {} file: {:?}",
+                                k,
+                                s_ty.name(),
+                                self.actual.name(),
+                                e
+                            ),
+                            None => fail!("count", "seek({}) then iter_shapes_as yields nothing, {} records", k, self.n),
+                        }
+                    } else {
+                        fail!("seek-error", "seek({}) fails on a file of {} records", k, self.n);
+                    }
                 }
             }
         }
